@@ -1672,5 +1672,5 @@ def check(run):
     run.rule('R2', _safe(r2_escape_shape), "escape shape %XX upper-case over UTF-8 bytes; _HEX_TO_BYTE complete and inverse", floor=10)
     run.rule('R3', _safe(r3_bindings), 'public encoder bindings and their users', floor=12)
     run.rule('R4', _safe(r4_decoder_paths), 'the three decoder paths share one skeleton; plus handling; shortcut', floor=20)
-    run.rule('R5', _safe(r5_check_escaped), 'check-escaped loop: for/else acceptance, hex digits, fall-through', floor=8)
+    run.rule('R5', _safe(r5_check_escaped), 'check-escaped loop: for/else acceptance, hex digits, fall-through; no character-class test on a possibly empty slice', floor=8)
     run.rule('R6', _safe(r6_parse_host), 'parse_host return shapes', floor=8)
